@@ -332,7 +332,7 @@ def search_dispatcher(ctx, valid, n):
         d.set_enabled(set(d.names))
         # ... and a short history without a reset in between: the same first frame again (its follow-up was lost), a damaged copy,
         # the next frame of the code - the dispatcher's shortcuts through the held key and the last-used decoder are only taken then
-        hist = [fs[0], fs[0], fs[0][:-3] + fs[0][-1:], fs[min(1, len(fs) - 1)], fs[0]]
+        hist = [fs[0], fs[0], fs[0][:-3] + fs[0][-1:], fs[min(1, len(fs) - 1)], fs[0], fs[0] + fs[0][-2:], fs[0][:-1] + [fs[0][-1] // 2, 560, -30000]]
         for step, fr in enumerate(hist):
             rec = d.call(fr, p['frequency'])
             rec['op'] = ('frame', name, {}, 0, fr, p['frequency'])
